@@ -312,5 +312,77 @@ fn main() {
                 f19_probe(op, x, 64)
             },
         );
+
+        // (6) S3: wrong public output + black-box linear repair of hints, replayed
+        // through the library's own witness generation (vp_circ::s3). Applied to the
+        // operations that rely on off-circuit hints (quotients, remainders,
+        // comparison / zero-test auxiliaries, sign and canonicity bits).
+        {
+            use vp_circ::e2::OpVisitor;
+            #[derive(Clone, Debug, serde::Serialize, serde::Deserialize)]
+            struct S3Item {
+                op: String,
+                input: Vec<vp_alg::Int>,
+            }
+            struct Collect {
+                items: Vec<S3Item>,
+                per_op: usize,
+            }
+            const HINTED: [&str; 14] = ["div_rem(", "rem(", "lower_than", "leq", "geq", "greater_than", "is_zero", "is_equal", "is_not_equal", "inv0", "sgn0", "is_canonical", "le_bits_", "div("];
+            impl OpVisitor for Collect {
+                fn visit<O: Op>(&mut self, op: &O, inputs: &[Vec<num_bigint::BigUint>]) {
+                    let name = op.name();
+                    if !HINTED.iter().any(|h| name.starts_with(h)) {
+                        return;
+                    }
+                    for x in inputs.iter().take(self.per_op) {
+                        self.items.push(S3Item { op: name.clone(), input: x.iter().map(|v| vp_alg::Int::of("", v)).collect() });
+                    }
+                }
+            }
+            struct Runner<'a> {
+                item: &'a S3Item,
+                seed: u64,
+                quick: bool,
+                result: Option<CaseResult>,
+            }
+            impl OpVisitor for Runner<'_> {
+                fn visit<O: Op>(&mut self, op: &O, _inputs: &[Vec<num_bigint::BigUint>]) {
+                    if self.result.is_some() || op.name() != self.item.op {
+                        return;
+                    }
+                    let x: Vec<num_bigint::BigUint> = self.item.input.iter().map(|v| v.big()).collect();
+                    let r = vp_circ::s3::check_s3(op, &x, self.seed, 2, 2, if self.quick { 120 } else { 400 }, if self.quick { 6 } else { 40 });
+                    self.result = Some(r.map(|(st, v)| v.with(format!("searches>0:{} repairs>0:{} accepted-correct>0:{}", st.searches > 0, st.repairs_found > 0, st.accepted_correct > 0))));
+                }
+            }
+            let mut col = Collect { items: vec![], per_op: p.tier.pick(1, 3) };
+            visit_ops(&mut col, quick, p.seed);
+            let mut items = col.items;
+            if quick {
+                // a fixed-size sample, always including the division family
+                let mut rng = SplitMix(vpcore::derive_seed(&["C04", "s3"], p.seed));
+                let (div, mut rest): (Vec<_>, Vec<_>) = items.into_iter().partition(|i| i.op.starts_with("div_rem(") || i.op.starts_with("rem("));
+                let mut keep: Vec<S3Item> = div.into_iter().take(6).collect();
+                while keep.len() < 36 && !rest.is_empty() {
+                    let i = (rng.next_u64() % rest.len() as u64) as usize;
+                    keep.push(rest.swap_remove(i));
+                }
+                items = keep;
+            }
+            let seed = p.seed;
+            p.enumerate(
+                "hinted.s3",
+                "operations relying on off-circuit hints x representative inputs: each public output replaced by other values (whole small range walked) and the violated constraints repaired by solving, black-box through replays, for another assignment in which the residual is affine (depth 2); any accepted replay must expose correct public values; non-trivial iff at least one affine repair was found",
+                items,
+                16,
+                false,
+                move |item: &S3Item| -> CaseResult {
+                    let mut r = Runner { item, seed: seed ^ vpcore::digest(&item.op), quick, result: None };
+                    visit_ops(&mut r, quick, seed);
+                    r.result.unwrap_or_else(|| Err(Failure::new("harness:op-not-found-in-catalogue", item.op.clone())))
+                },
+            );
+        }
     });
 }
